@@ -635,6 +635,18 @@ func (r *Reader) parseTableRow(tr *html.Node, isHeader bool) []TableCell {
 					fmt.Sscanf(attr.Val, "%d", &cell.ColSpan)
 				}
 			}
+			// The attributes are free text. HTML itself limits them (colspan 1-1000, rowspan
+			// 0-65534, WHATWG "table model"); the grid builders loop over these numbers.
+			if cell.ColSpan < 1 {
+				cell.ColSpan = 1
+			} else if cell.ColSpan > 1000 {
+				cell.ColSpan = 1000
+			}
+			if cell.RowSpan < 1 {
+				cell.RowSpan = 1
+			} else if cell.RowSpan > 65534 {
+				cell.RowSpan = 65534
+			}
 
 			row = append(row, cell)
 		}
